@@ -3,7 +3,7 @@
    module so that they share the number types.  ExtrOcamlBasic only. *)
 From Coq Require Import QArith.
 Require Import PPLV.Base.FM PPLV.Base.Sys PPLV.Base.Gens PPLV.Poly.PolyOps PPLV.Base.Sup PPLV.Poly.PolyQuery.
-Require Import PPLV.Shapes.ExtNum PPLV.Shapes.DBM PPLV.Shapes.DBMExact PPLV.Shapes.Templ PPLV.Shapes.ToSys PPLV.Shapes.Oct.
+Require Import PPLV.Shapes.ExtNum PPLV.Shapes.DBM PPLV.Shapes.DBMExact PPLV.Shapes.Templ PPLV.Shapes.ToSys PPLV.Shapes.Oct PPLV.Shapes.DBMSound PPLV.Shapes.DBMClosed PPLV.Shapes.DBMDisjoint.
 Require Extraction.
 Require Import ExtrOcamlBasic.
 Extraction Language OCaml.
@@ -25,5 +25,5 @@ Extraction "shapes.ml"
   sys_of_dbm dbm_pairs alpha_bds bds_templates
   sys_of_oct oct_pairs alpha_oct oct_templates
   sys_of_box box_pairs alpha_box box_templates
-  strong_closure incremental_strong_closure rows_of_oct oct_code_is_disjoint oct_code_contains oct_is_disjoint_op oct_contains_op oct_upper_bound_op oct_closed_b.
+  strong_closure incremental_strong_closure rows_of_oct oct_code_is_disjoint oct_code_contains oct_is_disjoint_op oct_contains_op oct_upper_bound_op oct_closed_b fixed_is_disjoint oct_fixed_is_disjoint.
 Cd "../../coq".
